@@ -467,6 +467,18 @@ def run(ctx):
         if len(samples) < 4 and i % 8 == 1:
             samples.append({"encoding": enc, "seeded": ["U+%04X" % c for c in pick], "values_with_specials": [s for s in vals if any(
                 ord(ch) in lbset | wsset | fmtset for ch in str(s))][:5], "violations_here": sorted({x["sig"] for x in v})[:4]})
+    # ---- encodings outside the four of the Coq file model (oracle only): a ruleset trained with utf-8-sig (what chardet reports
+    #      for a file with a byte order mark) carries a BOM in every rule file; every loader must read what the trainer held
+    for j, enc2 in enumerate(["utf-8-sig", "utf-16", "utf-8-sig"][:ctx.scale(2, 3)]):
+        entries = T.gen_entries(rng, "utf-8", n_distinct=rng.randint(4, 8)) + [("password1", 6), ("12345", 3), ("Zo\u00eb!", 2)]
+        raw = ("\n".join(T.flatten(entries)) + "\n").encode(enc2)
+        rec = train(sc, "x%d" % j, enc2, raw, 0.6, 4)
+        rep = {"enc": enc2, "coverage": 0.6, "ngram": 4, "file": raw.hex()}
+        dist["other_encoding_runs"] = dist.get("other_encoding_runs", 0) + 1
+        if rec.exc:
+            vio.append({"sig": "C07:trainer-aborts", "what": "run_trainer raised %s (%s)" % (rec.exc, enc2), "replay": rep})
+        if rec.ok:
+            vio += oracle(rec, rep)
     # ---- an existing rule directory trained AGAIN under the same name: the second list has no digits, walks,
     #      years or context strings, so whole categories become empty; config.ini must still name exactly
     #      the files that exist (checked by the same oracle after each step)
